@@ -36,10 +36,15 @@ impl<'a> Pieces<'a> {
 }
 #[verifier::external_body] pub fn str_splitn<'a>(s: &'a String, n: usize, c: char) -> (r: Pieces<'a>) ensures r.rest@ == Some(s@), r.limit@ == n, r.c@ == c { unimplemented!() }
 #[verifier::external_body] pub fn str_split<'a>(s: &'a String, c: char) -> (r: Pieces<'a>) ensures r.rest@ == Some(s@), r.limit@ == -1, r.c@ == c { unimplemented!() }
+pub struct Error { pub e: u8 }
+pub uninterp spec fn is_ident(s: Seq<char>) -> bool;
+#[verifier::external_body] pub fn is_macro_name(s: &str) -> (r: bool) ensures r == is_ident(s@) { unimplemented!() }
 // the preprocessor context: what was defined last
 pub struct Context { pub name: Ghost<Seq<char>>, pub value: Ghost<Seq<char>>, pub n: Ghost<int> }
 impl Context {
-    #[verifier::external_body] pub fn define(&mut self, name: &str, value: &str) ensures final(self).name@ == name@, final(self).value@ == value@, final(self).n@ == old(self).n@ + 1 { unimplemented!() }
+    // the name becomes part of a regular expression (`\\bNAME\\b`, unwrapped): it has to be an identifier
+    #[verifier::external_body] pub fn define(&mut self, name: &str, value: &str) requires is_ident(name@), //@ C16,C08:dash-d-name-is-an-identifier
+        ensures final(self).name@ == name@, final(self).value@ == value@, final(self).n@ == old(self).n@ + 1 { unimplemented!() }
 }
 """
 
@@ -69,17 +74,20 @@ def build(repo):
     c = f.cut_span(f.text.index("\n", ob) + 1, cb, "compile(): body of the loop over args.defines (R8)")
     c.sub(r"\b%s\.splitn\((\d+), ('.')\)" % var, r"str_splitn(%s, \1, \2)" % var, "R15 str::splitn(n, char) -> shim iterator", expect=(0, 1))
     c.sub(r"\b%s\.split\(('.')\)" % var, r"str_split(%s, \1)" % var, "R15 str::split(char) -> shim iterator", expect=(0, 1))
+    c.sub(r"return Err\(Error::Configuration \{(?:[^}\"]|\"[^\"]*\")*\}\);", "return Err(Error { e: 0 });", "R1 the error value -> any error", expect=(0, 2))
     if re.search(r"\b%s\.\w+\(" % var, c.text):
         raise Undecided("compile(): the option text is used through a method outside the unit's shims: %r" % re.search(r"\b%s\.\w+\(" % var, c.text).group(0))
     fn = """
 // R8: body of the loop over the -D options, verbatim up to R15
-pub fn dash_d(context: &mut Context, %(v)s: &String)
-    ensures final(context).n@ == old(context).n@ + 1, //@ C08:dash-d-defines-one-macro
-        final(context).name@ == name_of(%(v)s@), //@ C08:dash-d-name-is-the-text-before-the-first-equals
-        final(context).value@ == value_of(%(v)s@), //@ C08:dash-d-value-is-everything-after-the-first-equals
+pub fn dash_d(context: &mut Context, %(v)s: &String) -> (res: Result<(), Error>)
+    ensures res is Ok ==> final(context).n@ == old(context).n@ + 1, //@ C08:dash-d-defines-one-macro
+        res is Ok ==> final(context).name@ == name_of(%(v)s@), //@ C08:dash-d-name-is-the-text-before-the-first-equals
+        res is Ok ==> final(context).value@ == value_of(%(v)s@), //@ C08:dash-d-value-is-everything-after-the-first-equals
+        res is Err ==> final(context).n@ == old(context).n@,
 {
     proof { reveal_strlit("1"); lemma_first_of(%(v)s@, '='); assert(%(v)s@.subrange(0, %(v)s@.len() as int) =~= %(v)s@); }
 %(body)s
+    Ok(())
 }
 """ % {"v": var, "body": c.text}
     u.text[None] = common.PRELUDE + common.header_comment(NAME, [c]) + "verus! {\n" + SPECS + fn + common.CANARY + "\n} // verus!\n"
